@@ -166,3 +166,6 @@ UNITS = [
     Unit('ThermochemGroupAdditive.get_Selements', (GD, 'ThermochemGroupAdditive.get_Selements'), u_get_Selements),
     Unit('ThermochemGroupAdditive.get_SoR(S_elements)', (GD, 'ThermochemGroupAdditive.get_SoR'), u_get_SoR_elements),
 ]
+
+from . import standins
+STANDINS = [standins.c07_units]
